@@ -68,7 +68,7 @@ ASMJIT_FAVOR_SIZE Error init_call_conv(CallConv& cc, CallConvId call_conv_id, co
         break;
 
       case CallConvId::kVectorCall:
-        cc.set_flags(CallConvFlags::kCalleePopsStack);
+        cc.set_flags(CallConvFlags::kCalleePopsStack | CallConvFlags::kPassFloatsByVec);
         cc.set_passed_order(RegGroup::kGp, kZcx, kZdx);
         cc.set_passed_order(RegGroup::kVec, 0, 1, 2, 3, 4, 5);
         break;
@@ -301,7 +301,8 @@ ASMJIT_FAVOR_SIZE Error init_func_detail(FuncDetail& func, const FuncSignature& 
 
         case TypeId::kFloat32:
         case TypeId::kFloat64: {
-          RegType reg_type = Environment::is_32bit(arch) ? RegType::kX86_St : RegType::kVec128;
+          // 32-bit calling conventions return floats in FP0 with the exception of vectorcall, which uses XMM0.
+          RegType reg_type = Environment::is_32bit(arch) && cc.id() != CallConvId::kVectorCall ? RegType::kX86_St : RegType::kVec128;
           func._rets[value_index].init_reg(reg_type, value_index, type_id);
           break;
         }
